@@ -65,6 +65,14 @@ Definition h1_item (minor : N) (out : bool) (pr : option (payload * payload)) : 
   | Some (rq, rs) => [mkItem (if minor =? 0 then VHttp10 else VHttp11) rq rs out]
   end.
 
+(* a pair completed on an HTTP/2 key: HTTP/2 or gRPC by the markers of either half *)
+Definition h2_pair_item (out : bool) (pr : option (payload * payload)) : list item :=
+  match pr with
+  | None => []
+  | Some (rq, rs) =>
+      [mkItem (if is_grpc_header (p_hdr rq) || is_grpc_header (p_hdr rs) then VGrpc else VHttp2) rq rs out]
+  end.
+
 (* the switch at the top of the loop after an upgrade: new mode, or stop *)
 Definition switch_mode (is_client : bool) (next : pk) : res (option mode) :=
   if is_client then
@@ -127,7 +135,7 @@ Fixpoint dissect_loop (is_client : bool) (md : mode) (evs : list libev) (st : sh
                   if is_client && up then
                     (* the upgrade request is also registered as HTTP/2 stream 1 *)
                     let (m2, pr2) := register true (1, true) p (sh_m st1) in
-                    continue_ (mkShared m2 (sh_req st1) (sh_resp st1) (sh_items st1 ++ h1_item minor true pr2))
+                    continue_ (mkShared m2 (sh_req st1) (sh_resp st1) (sh_items st1 ++ h2_pair_item true pr2))
                   else continue_ st1
               end
           end
